@@ -1003,8 +1003,15 @@ def extract_fn(gen, f, probe=False):
   for pos, end, text, origin, _ in sorted(ops, key=lambda o: (-o[0], -o[4])):
     body.replace(pos, end, text, origin)
   # ---- text-anchored hints ("re:<regex>" or literal). A lost anchor skips the hint (recorded); it never aborts.
+  # A hint that uses a ghost variable declared by a skipped hint is skipped too (it could not even be type-checked).
+  lost_ghosts = set()
   for h in text_hints:
     name, anchor, occ, side, text = h
+    dep = [g for g in lost_ghosts if re.search(r"\b%s\b" % re.escape(g), text)]
+    if dep:
+      gen.skipped_hints.append({"fn": qual, "hint": name, "anchor": anchor, "why": "uses ghost %s declared by a hint whose anchor is lost" % ", ".join(sorted(dep))})
+      lost_ghosts.update(re.findall(r"let ghost (?:mut )?([A-Za-z_][A-Za-z0-9_]*)", text))
+      continue
     idx, alen = -1, 0
     start = 0
     lost = False
@@ -1020,6 +1027,7 @@ def extract_fn(gen, f, probe=False):
       start = idx + 1
     if lost:
       gen.skipped_hints.append({"fn": qual, "hint": name, "anchor": anchor, "why": "anchor text not found (occurrence %d)" % occ})
+      lost_ghosts.update(re.findall(r"let ghost (?:mut )?([A-Za-z_][A-Za-z0-9_]*)", text))
       continue
     if side == "before":
       p = body.s.rfind("\n", 0, idx) + 1
